@@ -291,7 +291,7 @@ def decodeRune (data : Bytes) (i : Nat) : Nat × Nat :=
     if b0 < 0x80 then (b0.toNat, 1)
     else if 0xC2 ≤ b0 && b0 ≤ 0xDF then
       match data[i+1]? with
-      | some b1 => if isCont b1 then (((b0.toNat &&& 0x1F) <<< 6) ||| (b1.toNat &&& 0x3F), 2) else (0xFFFD, 1)
+      | some b1 => if isCont b1 then ((b0.toNat - 0xC0) * 64 + (b1.toNat - 0x80), 2) else (0xFFFD, 1)
       | none => (0xFFFD, 1)
     else if 0xE0 ≤ b0 && b0 ≤ 0xEF then
       match data[i+1]?, data[i+2]? with
@@ -299,7 +299,7 @@ def decodeRune (data : Bytes) (i : Nat) : Nat × Nat :=
         let lo : UInt8 := if b0 == 0xE0 then 0xA0 else 0x80
         let hi : UInt8 := if b0 == 0xED then 0x9F else 0xBF
         if lo ≤ b1 && b1 ≤ hi && isCont b2 then
-          (((b0.toNat &&& 0x0F) <<< 12) ||| ((b1.toNat &&& 0x3F) <<< 6) ||| (b2.toNat &&& 0x3F), 3)
+          ((b0.toNat - 0xE0) * 4096 + (b1.toNat - 0x80) * 64 + (b2.toNat - 0x80), 3)
         else (0xFFFD, 1)
       | _, _ => (0xFFFD, 1)
     else if 0xF0 ≤ b0 && b0 ≤ 0xF4 then
@@ -308,7 +308,7 @@ def decodeRune (data : Bytes) (i : Nat) : Nat × Nat :=
         let lo : UInt8 := if b0 == 0xF0 then 0x90 else 0x80
         let hi : UInt8 := if b0 == 0xF4 then 0x8F else 0xBF
         if lo ≤ b1 && b1 ≤ hi && isCont b2 && isCont b3 then
-          (((b0.toNat &&& 0x07) <<< 18) ||| ((b1.toNat &&& 0x3F) <<< 12) ||| ((b2.toNat &&& 0x3F) <<< 6) ||| (b3.toNat &&& 0x3F), 4)
+          ((b0.toNat - 0xF0) * 262144 + (b1.toNat - 0x80) * 4096 + (b2.toNat - 0x80) * 64 + (b3.toNat - 0x80), 4)
         else (0xFFFD, 1)
       | _, _, _ => (0xFFFD, 1)
     else (0xFFFD, 1)
